@@ -48,6 +48,14 @@ class Lossy(Exception):
 LOSSY_CALLS = ('tolower', 'toupper', 'towlower', 'towupper', 'strcasecmp', 'strncasecmp', 'stricmp', 'isspace', 'abs')
 
 
+def lossy_calls_in(facts, g):
+    """names of case-folding / truncating calls in the body of g or of a lambda written in g"""
+    bodies = [g['body']] + [h['body'] for h in facts.functions if h.get('kind') == 'lambda' and h.get('body') is not None and
+                            (h.get('parent') or '').split('(')[0] == g['q']]
+    return sorted(set((x.get('callee') or '').split('::')[-1] for b in bodies for x in walk_all_exprs(b)
+                      if x.get('k') == 'call' and (x.get('callee') or '').split('::')[-1] in LOSSY_CALLS))
+
+
 class Cmp:
     def __init__(self, f, facts=None):
         self.f = f
@@ -125,6 +133,26 @@ class Cmp:
                              'relation is not irreflexive - not a strict weak order (undefined behaviour in the standard algorithm, and a wrong winner)' % (pa[1], pb[1], pa[1], pb[1]))
         if pa is not None and pb is not None and pa[1] and pa[1] == pb[1] and pa[0] == pb[0]:
             return '='          # a field compared with itself (same operand on both sides): always equal
+        if (pa is None or pb is None) and self.facts is not None:
+            # both sides are the same helper applied to one field of the two operands: lower(a.file) < lower(b.file)
+            def through(x):
+                x = strip_copies(strip_casts(x))
+                seen = 0
+                while x is not None and x.get('k') == 'ref' and x.get('d') in self.env and x.get('d') not in self.params and seen < 5:
+                    x = strip_copies(strip_casts(self.env[x['d']]))
+                    seen += 1
+                if x is not None and x.get('k') == 'call' and x.get('obj') is None and x.get('callee_in_repo') and len(x.get('args', [])) == 1:
+                    return x.get('callee'), param_field(x['args'][0], self.params, self.env)
+                return None, None
+            (ga, fa), (gb, fb) = through(a), through(b)
+            if ga and ga == gb and fa is not None and fb is not None and fa[1] and fa[1] == fb[1] and fa[0] != fb[0]:
+                gf = self.facts.fn(ga, optional=True)
+                if gf is not None and gf.get('body') is not None:
+                    lossy = lossy_calls_in(self.facts, gf)
+                    if lossy:
+                        raise Lossy('field %s is ordered through %s(), which applies %s: two keys that differ only in what it removes are equivalent '
+                                    '(e.g. "Lib.theo" and "lib.theo")' % (fa[1], ga.split('::')[-1], '/'.join(lossy)))
+                    raise Unsupported('field %s is ordered through the helper %s()' % (fa[1], ga.split('::')[-1]))
         if pa is None or pb is None or pa[1] != pb[1] or pa[0] == pb[0]:
             raise Unsupported('comparison of %s with %s is not field-wise' % (show(a), show(b)))
         r = sigma[pa[1]]
@@ -158,6 +186,17 @@ class Cmp:
                 a, b = e['obj'], e['args'][0]
             else:
                 a, b = e['args'][0], e['args'][1]
+        if op is None and k == 'call' and e.get('obj') is None and e.get('ck') != 'operator' and e.get('callee_in_repo') and len(e.get('args', [])) == 2 and \
+                self.facts is not None:
+            # a hand-written "less" over one field of both operands: less_nocase(a.file, b.file)
+            pa, pb = param_field(e['args'][0], self.params, self.env), param_field(e['args'][1], self.params, self.env)
+            gf = self.facts.fn(e.get('callee'), optional=True)
+            if pa is not None and pb is not None and pa[1] and pa[1] == pb[1] and pa[0] != pb[0] and gf is not None and gf.get('body') is not None:
+                lossy = lossy_calls_in(self.facts, gf)
+                if lossy:
+                    raise Lossy('field %s is ordered by %s(), which compares through %s: two keys that differ only in what %s removes are equivalent '
+                                '(e.g. "Lib.theo" and "lib.theo")' % (pa[1], gf['q'].split('::')[-1], '/'.join(lossy), '/'.join(lossy)))
+                raise Unsupported('field %s is ordered by the hand-written helper %s()' % (pa[1], gf['q'].split('::')[-1]))
         if op is not None:
             ta, tb = strip_copies(strip_casts(a)), strip_copies(strip_casts(b))
             # sign test of a three-way result:  c < 0, c == 0, 0 < c ...
